@@ -43,22 +43,32 @@ fn make_grant(size: usize, region: MemoryRegion) -> MemoryGrant { MemoryGrant { 
 
 pub open spec fn region_sum(r: [usize; 4]) -> int { r@[0] as int + r@[1] as int + r@[2] as int + r@[3] as int }
 
+@@PressureLevel@@
+impl PressureLevel {
+    @@PressureLevel::requires_eviction@@
+}
+// X1 helper: `level >= PressureLevel::High` (derived PartialOrd on a field-less enum); it only selects the eviction target
+#[verifier::external_body]
+fn at_least_high(level: PressureLevel) -> (r: bool) { true }
+
 impl BufferManager {
-    // ASSUMED contracts of the two callees that walk `consumers` (trait objects + RwLock): eviction may only lower
-    // `allocated` (consumers release through their grants) and touches neither the limits nor - in this sequential
-    // model - the region counters.
+    // The ONE assumed contract left on the eviction side: run_eviction_internal walks `consumers` (RwLock<Vec<Arc<dyn MemoryConsumer>>>)
+    // and asks them to evict; consumers release through their grants, so `allocated` can only go down, and - in this sequential
+    // model - limits and region counters are untouched.
     #[verifier::external_body]
-    fn run_eviction_cycle(&mut self, aggressive: bool) -> (freed: usize)
+    fn run_eviction_internal(&mut self, to_free: usize) -> (freed: usize)
         ensures final(self).allocated <= old(self).allocated, final(self).hard_limit == old(self).hard_limit,
                 final(self).soft_limit == old(self).soft_limit, final(self).evict_limit == old(self).evict_limit,
-                final(self).region_allocated@ == old(self).region_allocated@,
+                final(self).region_allocated@ == old(self).region_allocated@, final(self).config.budget == old(self).config.budget,
     { 0 }
-    #[verifier::external_body]
-    fn check_pressure(&mut self)
-        ensures final(self).allocated <= old(self).allocated, final(self).hard_limit == old(self).hard_limit,
-                final(self).soft_limit == old(self).soft_limit, final(self).evict_limit == old(self).evict_limit,
-                final(self).region_allocated@ == old(self).region_allocated@,
-    { }
+
+    @@BufferManager::run_eviction_cycle@@
+
+    @@BufferManager::compute_pressure_level@@
+
+    @@BufferManager::pressure_level@@
+
+    @@BufferManager::check_pressure@@
 
     @@BufferManager::allocated@@
 
@@ -106,9 +116,29 @@ def build(repo):
                    ('external_body OpaqueConsumers', 'E1: RwLock<Vec<Arc<dyn MemoryConsumer>>> is only read by the eviction callees'),
                    ('external_body MemoryGrant', 'E1: the grant handle (Arc<dyn GrantReleaser> inside) is opaque'),
                    ('external_body make_grant', 'E1: MemoryGrant::new(Arc::clone(self) as Arc<dyn GrantReleaser>, ..) at the tail of try_allocate'),
-                   ('external_body run_eviction_cycle', 'ASSUMED contract: eviction never increases `allocated`, leaves limits and (sequentially) region counters alone'),
-                   ('external_body check_pressure', 'ASSUMED contract: same as run_eviction_cycle (it only calls it)')]:
+                   ('external_body at_least_high', 'X1: derived PartialOrd comparison on PressureLevel; only selects the eviction target'),
+                   ('external_body run_eviction_internal', 'ASSUMED contract: eviction through the registered consumers never increases `allocated`, leaves limits and (sequentially) region counters alone')]:
         u.trust(w, why)
+
+
+    STATS = 'crates/grafeo-common/src/memory/buffer/stats.rs'
+    u.item(STATS, 'enum', 'PressureLevel').D1(keep_derive={'Clone', 'Copy'})
+    f = u.method(STATS, 'PressureLevel', 'requires_eviction').D1().ret('r')
+    f.ensures('def', 'r == !(*self is Normal)')
+    EVICT_FRAME = ('final(self).allocated <= old(self).allocated && final(self).hard_limit == old(self).hard_limit && final(self).soft_limit == old(self).soft_limit'
+                   ' && final(self).evict_limit == old(self).evict_limit && final(self).region_allocated@ == old(self).region_allocated@ && final(self).config.budget == old(self).config.budget')
+    f = u.method(SRC, 'BufferManager', 'run_eviction_cycle').D1().ret('freed')
+    f.sub('E3', 'fn run_eviction_cycle(&self,', 'fn run_eviction_cycle(&mut self,')
+    f.resub('E2', r'self\.allocated\.load\(Ordering::Relaxed\)', 'load_usize(&self.allocated)')
+    f.ensures('never_allocates', EVICT_FRAME)
+    f = u.method(SRC, 'BufferManager', 'compute_pressure_level').D1().ret('r')
+    f.ensures('normal_below_soft', '(r is Normal) == (current < self.soft_limit && current < self.evict_limit && current < self.hard_limit)')
+    f = u.method(SRC, 'BufferManager', 'pressure_level').D1().ret('r')
+    f.resub('E2', r'self\.allocated\.load\(Ordering::Relaxed\)', 'load_usize(&self.allocated)')
+    f = u.method(SRC, 'BufferManager', 'check_pressure').D1()
+    f.sub('E3', 'fn check_pressure(&self)', 'fn check_pressure(&mut self)')
+    f.sub('X1', 'level >= PressureLevel::High', 'at_least_high(level)')
+    f.ensures('never_allocates', EVICT_FRAME)
 
     def common(f, who):
         f.resub('E2', r'self\.allocated\.load\(Ordering::Relaxed\)', 'load_usize(&self.allocated)')
@@ -161,6 +191,6 @@ def build(repo):
     f.ensures('refusal_allocates_nothing', 'g is None ==> ' + POST_NO)
     f.ensures('frame', FRAME)
     u.assume('SEQUENTIAL ONLY: atomics are executed as plain reads/writes (rule E2); the check-then-increment window of try_allocate under concurrency, ids, torn indexes, epochs and deadlocks are NOT decided (schedules_covered: 0)')
-    u.assume('run_eviction_cycle / check_pressure are under ASSUMED contracts (trait-object consumers + RwLock are outside Verus)')
-    u.not_covered += ['every interleaving (no thread reasoning in either verifier here)', 'LpgStore / RdfStore / adjacency / WAL concurrent paths', 'run_eviction_internal, register/unregister_consumer, MemoryGrant::drop, arena.rs']
+    u.assume('run_eviction_internal is under an ASSUMED contract (trait-object consumers + RwLock are outside Verus); run_eviction_cycle / check_pressure / pressure_level are verified against it')
+    u.not_covered += ['every interleaving (no thread reasoning in either verifier here)', 'LpgStore / RdfStore / adjacency / WAL concurrent paths', 'run_eviction_internal (assumed), register/unregister_consumer, evict_to_target, arena.rs']
     return u
